@@ -566,8 +566,12 @@ RCP<const Basic> sign(const RCP<const Basic> &arg)
     if (is_a<Mul>(*arg)) {
         RCP<const Basic> s = sign(down_cast<const Mul &>(*arg).get_coef());
         map_basic_basic dict = down_cast<const Mul &>(*arg).get_dict();
-        return mul(s,
-                   make_rcp<const Sign>(Mul::from_dict(one, std::move(dict))));
+        RCP<const Basic> rest = Mul::from_dict(one, std::move(dict));
+        if (not is_a<Mul>(*rest)) {
+            // a single factor is left (e.g. -pi -> pi): it may evaluate
+            return mul(s, sign(rest));
+        }
+        return mul(s, make_rcp<const Sign>(rest));
     }
     return make_rcp<const Sign>(arg);
 }
